@@ -425,13 +425,16 @@ model's `| _ => .err "unknown wire type"`). -/
 theorem unknown_wire_type_is_error : Gen.CodecSchema.proto.defaultRejects = true :=
   Facts.unknown_wire_type_is_error
 
-/-- The model interns the strings of the probe profile in the order of `internSites`. -/
-theorem intern_order_model : internTable probe = some (internSites.map (·.marker)) :=
+/-- The model interns the empty string first and then the strings of the probe profile in the order
+of `internSites`. -/
+theorem intern_order_model : internTable probe = some ([] :: internSites.map (·.marker)) :=
   Facts.intern_order_model
 
-/-- preEncode of profile/encode.go calls `addString` in that order (same field paths under the same
+/-- preEncode of profile/encode.go interns the empty string first (itself or in the function that
+creates the table) and then calls `addString` in that order (same field paths under the same
 loops and conditions; local names and loop syntax do not matter). -/
-theorem intern_order_matches : Gen.CodecSchema.internOrder = expectedInternOrder :=
+theorem intern_order_matches :
+    Gen.CodecSchema.emptyStringInternedFirst = true ∧ Gen.CodecSchema.internOrder = expectedInternOrder :=
   Facts.intern_order_matches
 
 /-- postDecode's dense id tables, WHEN the translator recognises the id-table code (inline slices or
